@@ -1,5 +1,7 @@
 package smtp
 
+import "io"
+
 // verifValidScalar: r is a Unicode scalar value.
 func verifValidScalar(r rune) bool {
 	return r >= 0 && r <= 0x10FFFF && !(r >= 0xD800 && r <= 0xDFFF)
@@ -67,4 +69,127 @@ func verif_C14_rune() {
 	verifAssert(err == nil, "C14.utf8-addr-decodes")
 	verifAssert(dec == s, "C14.utf8-addr-roundtrip")
 	verifReach("C14.rune-end")
+}
+
+// verif_C14_trip: the whole trip. Client.Mail / Client.Rcpt build their command
+// line from an option struct whose fields are chosen by the harness (subset of
+// fields symbolic; one string-valued option carries an arbitrary Unicode
+// scalar in a printable context); that very line is served by a go-smtp server
+// with the corresponding extensions enabled; the options the backend receives
+// must equal the ones given to the client.
+func verif_C14_trip() {
+	r := nondetRune()
+	assume(verifValidScalar(r) && r >= 0x20 && r != 0x7f)
+	utf8srv := nondetBool()
+	isMail := nondetBool()
+	ext := map[string]string{"8BITMIME": "", "SIZE": "", "DSN": "", "AUTH": "", "REQUIRETLS": ""}
+	if utf8srv {
+		ext["SMTPUTF8"] = ""
+	}
+	be := &vbackend{}
+	srv, _ := verifServer(be)
+	srv.EnableDSN, srv.EnableREQUIRETLS, srv.EnableSMTPUTF8 = true, true, utf8srv
+	var line []byte
+	var cerr error
+	var mo MailOptions
+	var ro RcptOptions
+	if isMail {
+		if nondetBool() {
+			mo.Size = int64(nondetInt(1, 999))
+		}
+		mo.RequireTLS = nondetBool()
+		mo.UTF8 = utf8srv && nondetBool()
+		switch verifChoice(3) {
+		case 1:
+			mo.Return = DSNReturnFull
+		case 2:
+			mo.Return = DSNReturnHeaders
+		}
+		switch verifChoice(3) {
+		case 1:
+			// ENVID: printable ASCII per the statement
+			assume(r <= 0x7e)
+			mo.EnvelopeID = "e" + string(r) + "="
+		case 2:
+			// AUTH: a mailbox whose local part carries the scalar; 7-bit ASCII domain of xtext
+			assume(r <= 0x7e && verifIsAtext(byte(r)))
+			a := "u" + string(r) + "@h"
+			mo.Auth = &a
+		}
+		if nondetBool() && mo.Auth == nil {
+			e := ""
+			mo.Auth = &e
+		}
+		c, vc := verifClient("250 2.0.0 ok\r\n", ext)
+		cerr = c.Mail("s@v", &mo)
+		line = vc.out
+	} else {
+		switch verifChoice(4) {
+		case 1:
+			ro.Notify = []DSNNotify{DSNNotifyNever}
+		case 2:
+			ro.Notify = []DSNNotify{DSNNotifySuccess, DSNNotifyFailure}
+		case 3:
+			ro.Notify = []DSNNotify{DSNNotifyDelayed, DSNNotifyFailure, DSNNotifySuccess}
+		}
+		switch verifChoice(3) {
+		case 1:
+			assume(r <= 0x7e)
+			ro.OriginalRecipientType = DSNAddressTypeRFC822
+			ro.OriginalRecipient = "o" + string(r) + "+@h"
+		case 2:
+			ro.OriginalRecipientType = DSNAddressTypeUTF8
+			ro.OriginalRecipient = "o" + string(r) + "\\@h"
+		}
+		c, vc := verifClient("250 2.0.0 ok\r\n", ext)
+		cerr = c.Rcpt("r@v", &ro)
+		line = vc.out
+	}
+	verifAssert(cerr == nil, "C14.client-accepts-envelope")
+	if cerr != nil {
+		return
+	}
+	in := []byte("EHLO c\r\n")
+	if !isMail {
+		in = append(in, "MAIL FROM:<s@v>\r\n"...)
+	}
+	in = append(in, line...)
+	vc, _, _ := verifServe(srv, in, io.EOF)
+	k := 2
+	if !isMail {
+		k = 3
+	}
+	code := verifNthReplyCode(vc.out, k)
+	verifObserve("c14t", int(r), utf8srv, isMail, line, code)
+	verifAssert(code == 250, "C14.server-accepts-what-the-client-sent")
+	if code != 250 {
+		return
+	}
+	if isMail {
+		verifReach("C14.trip-mail")
+		got := verifLastMailOpts(be)
+		verifAssert(got != nil && be.find("Mail", "s@v") >= 0, "C14.trip-mail-called")
+		if got == nil {
+			return
+		}
+		verifAssert(got.Size == mo.Size && got.RequireTLS == mo.RequireTLS && got.UTF8 == mo.UTF8 && got.Return == mo.Return && got.EnvelopeID == mo.EnvelopeID, "C14.mail-options-survive")
+		verifAssert((got.Auth == nil) == (mo.Auth == nil), "C14.mail-auth-presence-survives")
+		if got.Auth != nil && mo.Auth != nil {
+			verifAssert(*got.Auth == *mo.Auth, "C14.mail-auth-survives")
+		}
+	} else {
+		verifReach("C14.trip-rcpt")
+		got := verifLastRcptOpts(be)
+		verifAssert(got != nil && be.find("Rcpt", "r@v") >= 0, "C14.trip-rcpt-called")
+		if got == nil {
+			return
+		}
+		verifAssert(got.OriginalRecipientType == ro.OriginalRecipientType && got.OriginalRecipient == ro.OriginalRecipient, "C14.orcpt-survives")
+		verifAssert(len(got.Notify) == len(ro.Notify), "C14.notify-length-survives")
+		if len(got.Notify) == len(ro.Notify) {
+			for i := range ro.Notify {
+				verifAssert(got.Notify[i] == ro.Notify[i], "C14.notify-survives")
+			}
+		}
+	}
 }
